@@ -53,6 +53,7 @@ type Engine struct {
 	noEffectRe []*regexp.Regexp
 	argsOnlyRe []*regexp.Regexp // callees that may only write through their arguments
 	pureRe     []pureSpec        // callees that are deterministic functions of their arguments
+	bumpRe     []pureSpec        // callees (args-only) each of whose calls increments a ghost counter (name = "<pkg dir>.<ghost var>")
 	lemmaPos map[*Lemma]*declInfo
 	typeTags map[string]int
 	mu       sync.Mutex
@@ -110,6 +111,20 @@ func (eng *Engine) loadNoEffect(path string) error {
 				return fmt.Errorf("%s: %v", path, err)
 			}
 			eng.pureRe = append(eng.pureRe, pureSpec{name: f[0], re: re})
+			continue
+		}
+		if strings.HasPrefix(line, "bump:") {
+			// bump:<pkg dir>.<ghost int var> <regex>: args-only callee whose every call is counted
+			f := strings.Fields(strings.TrimPrefix(line, "bump:"))
+			if len(f) != 2 {
+				return fmt.Errorf("%s: malformed bump: line %q", path, line)
+			}
+			re, err := regexp.Compile(f[1])
+			if err != nil {
+				return fmt.Errorf("%s: %v", path, err)
+			}
+			eng.bumpRe = append(eng.bumpRe, pureSpec{name: f[0], re: re})
+			eng.argsOnlyRe = append(eng.argsOnlyRe, re)
 			continue
 		}
 		argsOnly := false
@@ -451,6 +466,29 @@ func replaceIdent(s, id, repl string) string {
 type pureSpec struct {
 	name string
 	re   *regexp.Regexp
+}
+
+func (eng *Engine) ghostVarNamed(name string) bool {
+	for v := range eng.ghostVars {
+		if shortQual(v.Pkg())+"."+v.Name() == name {
+			return true
+		}
+	}
+	return false
+}
+
+// bumpVar returns the ghost counter incremented by every call of fn, if any.
+func (eng *Engine) bumpVar(fn *types.Func) (string, bool) {
+	if fn == nil {
+		return "", false
+	}
+	full := fn.FullName()
+	for _, p := range eng.bumpRe {
+		if p.re.MatchString(full) {
+			return p.name, true
+		}
+	}
+	return "", false
 }
 
 // pureName returns the uninterpreted-function name of a callee declared pure.
